@@ -8,7 +8,7 @@
    __getitem__  -> [c_getitem]: scalar head (normalised, range-checked, routed with
                    find_indexer), slice head (per-part chunk_start with the
                    (start - offset) mod stride phase, chunk_stop = stop - offset, reshape,
-                   np.concatenate), boolean-mask head (mask partitioned over the parts),
+                   np.concatenate; negative strides rejected), boolean-mask head (mask partitioned over the parts),
                    integer-sequence head (negatives normalised, rows scattered into a
                    pre-allocated output part by part).
    Python's negative list index on `self.indexers[ind]` (reachable with negative strides) is
@@ -121,52 +121,63 @@ Fixpoint scatter_parts (ps : list cpart) (ind : Z) (starts : list Z) (head : lis
   | _, _ => Ok out
   end.
 
+(* one chunk of the slice branch: indexer [ind] asked for slice(chunk_start, chunk_stop, stride) *)
+Definition slice_chunk (ps : list cpart) (starts : list Z) (tail : list aidx) (shape_tails : list Z)
+           (start stop stride : Z) (ind : Z) : res arr :=
+  p <- py_nth ps ind ;; off <- py_nth starts ind ;;
+  let cs := if off <=? start then start - off else (start - off) mod stride in
+  sub <- part_get p (ASlice (Some cs) (Some (stop - off)) (Some stride) :: tail) ;;
+  reshape_chunk shape_tails sub.
+
+(* one chunk of the mask branch: the part of the mask that covers indexer (p, off, len) *)
+Definition mask_chunk (m : list bool) (tail : list aidx) (shape_tails : list Z) (q : cpart * Z * Z) : res arr :=
+  sub <- part_get (fst (fst q)) (AMask (zslice m (snd (fst q)) (snd (fst q) + snd q)) :: tail) ;;
+  reshape_chunk shape_tails sub.
+
+Definition c_head (ps : list cpart) (dt total : Z) (S : list sel) (head : aidx) (tail : list aidx) : res arr :=
+  let shape_tails := take_shape S in
+  let lens := map part_len ps in
+  let starts := starts_from 0 lens in
+  match head with
+  | AInt z =>
+      let z' := if z <? 0 then total + z else z in
+      if (0 <=? z') && (z' <? total) then
+        let ind := find_indexer starts z' in
+        p <- py_nth ps ind ;; off <- py_nth starts ind ;;
+        part_get p (AInt (z' - off) :: tail)
+      else Err
+  | ASlice a b cc =>
+      match slice_indices total a b cc with
+      | None => Err
+      | Some (start, stop, stride) =>
+          if stride <? 0 then Err else
+          chunks <- mapM (slice_chunk ps starts tail shape_tails start stop stride)
+                         (py_range (find_indexer starts start) (find_indexer starts stop + 1) 1) ;;
+          concat_chunks dt shape_tails chunks
+      end
+  | AMask m =>
+      if zlen m =? total then
+        chunks <- mapM (mask_chunk m tail shape_tails) (combine (combine ps starts) lens) ;;
+        concat_chunks dt shape_tails chunks
+      else Err
+  | AList l =>
+      _ <- mapM (wrap_res total) l ;;                           (* final_shape: np.arange(total)[l] *)
+      let l' := map (fun z => if z <? 0 then z + total else z) l in
+      let inds := map (find_indexer starts) l' in
+      rows <- scatter_parts ps 0 starts l' inds tail (repeat None (List.length l)) ;;
+      rows' <- mapM (fun o => match o with Some t => Ok t | None => Err end) rows ;;
+      Ok (mk_arr dt (mk_nd (zlen l :: shape_tails) (Node rows')))
+  end.
+
 Definition c_getitem (c : concat) (ixs : list aidx) : res arr :=
   let ps := c_parts c in
   init <- c_initial_shape ps ;;
   dt <- c_initial_dtype ps ;;
   match pad_to (List.length init) ixs, init with
   | head :: tail, total :: tdims =>
-      shape_tails <- mapM (fun p => r <- resolve (fst p) (snd p) ;; Ok (zlen (fst r)))
-                          (filter (fun p => negb (is_scalar (snd p))) (combine tdims tail)) ;;
-      let lens := map part_len ps in
-      let starts := starts_from 0 lens in
-      out <-
-        match head with
-        | AInt z =>
-            let z' := if z <? 0 then total + z else z in
-            if (0 <=? z') && (z' <? total) then
-              let ind := find_indexer starts z' in
-              p <- py_nth ps ind ;; off <- py_nth starts ind ;;
-              part_get p (AInt (z' - off) :: tail)
-            else Err
-        | ASlice a b cc =>
-            match slice_indices total a b cc with
-            | None => Err
-            | Some (start, stop, stride) =>
-                chunks <- mapM (fun ind =>
-                            p <- py_nth ps ind ;; off <- py_nth starts ind ;;
-                            let cs := if off <=? start then start - off else (start - off) mod stride in
-                            sub <- part_get p (ASlice (Some cs) (Some (stop - off)) (Some stride) :: tail) ;;
-                            reshape_chunk shape_tails sub)
-                          (py_range (find_indexer starts start) (find_indexer starts stop + 1) 1) ;;
-                concat_chunks dt shape_tails chunks
-            end
-        | AMask m =>
-            if zlen m =? total then
-              chunks <- mapM (fun q => sub <- part_get (fst (fst q)) (AMask (zslice m (snd (fst q)) (snd (fst q) + snd q)) :: tail) ;;
-                                       reshape_chunk shape_tails sub)
-                             (combine (combine ps starts) lens) ;;
-              concat_chunks dt shape_tails chunks
-            else Err
-        | AList l =>
-            _ <- mapM (wrap_res total) l ;;                           (* final_shape: np.arange(total)[l] *)
-            let l' := map (fun z => if z <? 0 then z + total else z) l in
-            let inds := map (find_indexer starts) l' in
-            rows <- scatter_parts ps 0 starts l' inds tail (repeat None (List.length l)) ;;
-            rows' <- mapM (fun o => match o with Some t => Ok t | None => Err end) rows ;;
-            Ok (mk_arr dt (mk_nd (zlen l :: shape_tails) (Node rows')))
-        end ;;
+      (* shape_tails: every tail index is evaluated on its axis, scalar-indexed axes are then dropped *)
+      S <- mapM (fun p => resolve (fst p) (snd p)) (combine tdims tail) ;;
+      out <- c_head ps dt total S head tail ;;
       apply_transforms (c_ts c) out
   | _, _ => Err
   end.
